@@ -1621,7 +1621,8 @@ namespace avel {
         auto ret = _mm_getmant_ps(decay(v), _MM_MANT_NORM_p5_1, _MM_MANT_SIGN_src);
         // Note: Returns -1 or 1 for -infinity and +infinity respectively
 
-        ret = _mm_maskz_mov_ps(is_non_zero, ret);
+        // Zeros are returned as they are so that the sign of -0.0 is kept
+        ret = _mm_mask_mov_ps(decay(v), is_non_zero, ret);
         ret = _mm_mask_blend_ps(is_infinity, ret, decay(v));
         return vec4x32f{ret};
 
@@ -1636,7 +1637,8 @@ namespace avel {
         auto ret = _mm_getmant_ps(decay(v), _MM_MANT_NORM_p5_1, _MM_MANT_SIGN_src);
         // Note: Returns -1 or 1 for -infinity and +infinity respectively
 
-        ret = _mm_maskz_mov_ps(is_non_zero, ret);
+        // Zeros are returned as they are so that the sign of -0.0 is kept
+        ret = _mm_mask_mov_ps(decay(v), is_non_zero, ret);
         ret = _mm_mask_blend_ps(is_infinity, ret, decay(v));
         return vec4x32f{ret};
 
@@ -1644,10 +1646,11 @@ namespace avel {
         #elif defined(AVEL_SSE2)
         auto v_bits = _mm_castps_si128(decay(v));
 
-        auto is_v_zero = _mm_cmpeq_epi32(v_bits, _mm_setzero_si128());
+        // Compare with the sign bit cleared so that -0.0 is recognized too
+        auto abs_mask = _mm_set1_epi32(float_sign_bit_mask_bits);
+        auto is_v_zero = _mm_cmpeq_epi32(_mm_andnot_si128(abs_mask, v_bits), _mm_setzero_si128());
 
         // Check if v is subnormal
-        auto abs_mask = _mm_set1_epi32(float_sign_bit_mask_bits);
         auto flt_min_bits = _mm_set1_epi32(0x800000);
         auto is_subnormal = _mm_cmplt_epi32(_mm_andnot_si128(abs_mask, v_bits), flt_min_bits);
 
